@@ -26,7 +26,9 @@ META = {
              "(distinct by construction); non-trivial = needs a prefix "
              "(count >= 1000). statistics: Hypothesis-generated infos; "
              "non-trivial = >= 2 scales and a partial border chunk; distinct "
-             "by the full info."),
+             "by the full info."
+             ' Also: counts given as Python int, NumPy integers and (when '
+             'exact) floats.'),
     "exhaustive_parts": ["fmt_sweep: 0..2^22 (quick) / 0..2^26 (thorough) and "
                          "+-4096 windows around c*1024^k"],
     "trusted_base": ["Python int / Fraction arithmetic", "regex parser of the "
